@@ -192,7 +192,7 @@ def check_maps(res, xb_reg, xb_core, M, N, rng, mapfun, key0, origin):
 
     # -- P0: the two arrays describe two tilings of the same closed perimeter
     ok = (np.all(np.diff(c['xr']) > 0) and np.all(np.diff(c['xg']) > 0)
-          and c['xg'][-1] < P and n_d >= 6 and n_g >= n_d
+          and c['xg'][-1] < P and n_d >= 6 and n_g >= 6
           and np.all(w_d > 0) and np.all(w_g > 0))
     res.check('P0_meshes_tile_perimeter', bool(ok),
               'boundary arrays are not increasing tilings of [0, P]',
